@@ -1312,6 +1312,17 @@ func genDHCP(c *Ctx) {
 	for _, hl := range []int{0, 1, 6, 15, 16, 17, 128, 255} {
 		wr(dhcpWire(byte(hl), 0x63825363, []byte{255}))
 	}
+	// the other fixed header bytes (op, hardware type, hops) crossed with the hardware length: a bound that holds for
+	// Ethernet only, or for requests only, must not let another combination through
+	for _, ht := range []int{0, 1, 2, 6, 7, 15, 20, 32, 255} {
+		for _, hl := range []int{0, 6, 8, 16, 17, 20, 255} {
+			for _, op := range []int{1, 2, 0, 255} {
+				b := dhcpWire(byte(hl), 0x63825363, []byte{53, 1, 1, 255})
+				b[0], b[1] = byte(op), byte(ht)
+				wr(b)
+			}
+		}
+	}
 	for _, mg := range []uint32{0, 0x63825362, 0x63825463, 0x53638263, 0xffffffff} {
 		wr(dhcpWire(6, mg, []byte{53, 1, 1, 255}))
 	}
